@@ -469,6 +469,15 @@ def compare(real, m, mismatches):
                 mismatches.append(("functions", f"{name}: real imports {ri} model {mf['imports']}"))
 
 
+def _empty_result(job):
+    return {"idx": job[0], "fam": job[1], "real": None, "verdict": None, "small": None, "v2": None, "key": None,
+            "feats": None, "crash": None, "stats": {}, "unsupported": []}
+
+
+def process_chunk(chunk):
+    return [process_case(j) for j in chunk]
+
+
 def process_case(args):
     """One program, start to finish, in a worker: build under observation, plain-data extraction for the
     correspondence, model-free verdict, shrinking. Never raises."""
@@ -995,15 +1004,38 @@ def run(ck: core.Check):
     jobs = [(i, fam, prog, budget) for i, (fam, prog) in enumerate(cases)]
     nproc = max(1, min(int(os.environ.get("VERIF_JOBS", "0") or 0) or 12, os.cpu_count() or 1, len(jobs)))
     results = None
+    deaths: list = []
     if nproc > 1:
+        # A worker can die (onnxruntime aborts in C++ on some models): never hang, never lose the other cases.
+        from concurrent.futures import ProcessPoolExecutor
+        from concurrent.futures.process import BrokenProcessPool
+
+        ctx = mp.get_context("fork")
+        done: dict[int, dict] = {}
+        chunks = [jobs[i:i + 8] for i in range(0, len(jobs), 8)]
         try:
-            with mp.get_context("fork").Pool(nproc) as pool:
-                results = pool.map(process_case, jobs, chunksize=4)
+            with ProcessPoolExecutor(nproc, mp_context=ctx) as ex:
+                futs = [(ch, ex.submit(process_chunk, ch)) for ch in chunks]
+                for ch, f in futs:
+                    try:
+                        for r in f.result():
+                            done[r["idx"]] = r
+                    except BrokenProcessPool:
+                        pass
+                    except Exception as e:  # noqa: BLE001
+                        for j in ch:
+                            done[j[0]] = dict(_empty_result(j), crash=f"{type(e).__name__}: {e}")
         except Exception as e:  # noqa: BLE001
             ck.broken("infrastructure", "C09 worker pool", f"{type(e).__name__}: {e}")
-            results = None
-    if results is None:
-        results = [process_case(j) for j in jobs]
+        todo = [j for j in jobs if j[0] not in done]
+        for j in todo:  # one process per remaining case: the one that kills its process is identified
+            try:
+                with ProcessPoolExecutor(1, mp_context=ctx) as ex1:
+                    done[j[0]] = ex1.submit(process_case, j).result(timeout=300)
+            except Exception as e:  # noqa: BLE001
+                deaths.append({"prog": j[2], "how": f"{type(e).__name__}"})
+                done[j[0]] = dict(_empty_result(j), died=True)
+        results = [done[j[0]] for j in jobs]
     results.sort(key=lambda r: r["idx"])
 
     # model side: one batch through the driver, in case order
@@ -1019,6 +1051,10 @@ def run(ck: core.Check):
     kinds_reported: dict[str, int] = {}
     for r, (fam, prog) in zip(results, cases):
         stats["programs"] += 1
+        if r.get("died"):
+            # the process running this case was killed (an abort inside onnxruntime): recorded, not a verdict
+            stats["worker_deaths"] = stats.get("worker_deaths", 0) + 1
+            continue
         if r["crash"]:
             stats["worker_crashes"] += 1
             if stats["worker_crashes"] <= 3:
@@ -1069,6 +1105,7 @@ def run(ck: core.Check):
         "schema_lookups_compared": n_sch,
         "distribution": stats,
         "runtime_unsupported": {"count": len(UNSUPPORTED), "examples": UNSUPPORTED[:3]},
+        "worker_deaths": deaths[:3],
     })
     ck.exhaustive = False
     ck.rule = (
